@@ -11,6 +11,7 @@ declare -A CHECKS=(
  [C01r3]="C01" [C02r3]="C18" [C03r3]="C13" [C04r3]="C13" [C05r3]="C05 C10" [C06r3]="C06" [C07r3]="C07 C05" [C08r3]="C08 C17"
  [C09r3]="C09" [C10r3]="C10" [C11r3]="C11" [C12r3]="C12" [C13r3]="C13" [C14r3]="C14 C13" [C15r3]="C15" [C16r3]="C16"
  [C17r3]="C17" [C18r3]="C18 C06" [C19r3]="C19" [C20r3]="C20 C15"
+ [C03r4]="C13" [C09r4]="C09" [C10r4]="C10" [C11r4]="C11" [C14r4]="C16" [C16r4]="C16" [C20r4]="C20"
 )
 echo "" >> seeded/RESULTS.md
 echo "## run $(date -u '+%Y-%m-%d %H:%M:%S') UTC, repo HEAD $(git -C /repo rev-parse --short HEAD), verif HEAD $(git rev-parse --short HEAD)" >> seeded/RESULTS.md
